@@ -158,11 +158,14 @@ fn main() {
             "grace" => daemon::cmd_grace(&rest),
             "refid" => daemon::cmd_refid(&rest),
             "poller" => daemon::cmd_poller(&rest),
+            "phcfile" => daemon::cmd_phcfile(&rest),
             "open" => seg::cmd_open(&rest),
             "snapshot_script" => seg::cmd_snapshot_script(&rest),
             "writegen" => seg::cmd_writegen(&rest),
             "layout" => abi::cmd_layout(&rest),
+            "rewrite" => abi::cmd_rewrite(&rest),
             "abi" => abi::cmd_abi(&rest),
+            "abi2" => abi::cmd_abi2(&rest),
             "recreate" => seg::cmd_recreate(&rest),
             "snapshot_stall" => seg::cmd_snapshot_stall(&rest),
             "snapshot_busy" => seg::cmd_snapshot_busy(&rest),
